@@ -1,5 +1,5 @@
 From Coq Require Import ZArith List.
-From C11 Require Import GrowModel GrowProofs.
+From C11 Require Import GrowModel.
 Theorem C11_bucket_find_sound : forall k l p, bfind k l = Some p -> nth_error l p = Some k.
-Proof. exact GrowProofs.bfind_some. Qed.
+Proof. exact GrowModel.bfind_some. Qed.
 Print Assumptions C11_bucket_find_sound.
